@@ -140,6 +140,7 @@ pub struct ClientReq {
 
 #[derive(Clone)]
 pub struct Setup {
+    pub versions: Vec<Vec<u32>>,
     pub apps: Vec<App>,
     pub system_idx: usize,
     pub service_url: String,
@@ -149,7 +150,7 @@ pub struct Setup {
     pub os_version: String,
 }
 
-fn draw_app(w: &mut World, i: usize) -> App {
+fn draw_app(w: &mut World, i: usize) -> (App, Vec<u32>) {
     let key = format!("setup/app#{i}");
     let inv = w.profile.invalid_app_permille;
     let mut id = format!("app-{i}");
@@ -197,7 +198,7 @@ fn draw_app(w: &mut World, i: usize) -> App {
             app.extra_fields.insert("product_id".to_string(), "p\"q".to_string());
         }
     }
-    app
+    (app, version)
 }
 
 pub const URLS: [&str; 8] = [
@@ -216,7 +217,9 @@ pub const BAD_URLS: [&str; 4] = ["", "not a url", "http://exa mple.test/", "http
 fn draw_setup(w: &mut World) -> Setup {
     let p = w.profile.clone();
     let napps = 1 + w.draws.draw("setup/napps", p.apps_max.max(1) as u64) as usize;
-    let apps: Vec<App> = (0..napps).map(|i| draw_app(w, i)).collect();
+    let drawn: Vec<(App, Vec<u32>)> = (0..napps).map(|i| draw_app(w, i)).collect();
+    let versions: Vec<Vec<u32>> = drawn.iter().map(|d| d.1.clone()).collect();
+    let apps: Vec<App> = drawn.into_iter().map(|d| d.0).collect();
     let system_idx = if w.draws.chance("setup/system_nonzero", p.system_app_nonzero_permille) && napps > 1 {
         1 + w.draws.draw("setup/system_idx", napps as u64 - 1) as usize
     } else {
@@ -376,7 +379,7 @@ fn draw_setup(w: &mut World) -> Setup {
             w.triggers.push(Trigger { class: "__admin", ordinal: at, client: k as u32, req: 0, delay: 0 });
         }
     }
-    Setup { apps, system_idx, service_url, cup, mode_start, client_reqs, os_version: "1.0.0.0".to_string() }
+    Setup { versions, apps, system_idx, service_url, cup, mode_start, client_reqs, os_version: "1.0.0.0".to_string() }
 }
 
 fn hostile_disk(w: &mut World, apps: &[App]) {
@@ -545,6 +548,10 @@ fn run_life(world: &Shared, setup: &Setup, steps: &mut u64) -> LifeEnd {
             system_idx: setup.system_idx,
             boot,
             key_id,
+            versions: setup.versions.clone(),
+            updater_name: "sim-updater".into(),
+            updater_version: vec![0, 1, 2, 3],
+            os: vec!["sim-os".into(), setup.os_version.clone(), "sp".into(), "simarch".into()],
         });
         let map = w.disk.committed.clone();
         w.rec(Kind::DiskCommitted { map });
